@@ -6,6 +6,7 @@ mod c07;
 mod c08;
 mod c09;
 mod c12;
+mod c13;
 mod c14;
 mod c19;
 mod evprog;
@@ -34,6 +35,7 @@ fn main() {
             "c08" => c08::replay(case),
             "c09" => c09::replay(case),
             "c12" => c12::replay(case),
+            "c13" => c13::replay(case),
             "c14" => c14::replay(case),
             "c19" => c19::replay(case),
             other => {
@@ -54,6 +56,7 @@ fn main() {
         "c08" => c08::cmd(&args),
         "c09" => c09::cmd(&args),
         "c12" => c12::cmd(&args),
+        "c13" => c13::cmd(&args),
         "c14" => c14::cmd(&args),
         "c19" => c19::cmd(&args),
         other => {
